@@ -12,6 +12,7 @@ from types import TracebackType
 from typing import Dict, Iterable, Iterator, Optional, Tuple, Type, Union
 
 # Gufo Labs modules
+from .._fast import GetIter as _Iter
 from .._fast import (
     SnmpV1ClientSocket,
     SnmpV2cClientSocket,
@@ -165,7 +166,9 @@ class SnmpSession(object):
     ) -> None:
         """Asynchronous context manager exit."""
 
-    def _ensure_discovered(self: "SnmpSession") -> None:
+    def _ensure_discovered(
+        self: "SnmpSession", oids: Iterable[str] = ()
+    ) -> None:
         """
         Run the deferred engine id discovery.
 
@@ -173,8 +176,16 @@ class SnmpSession(object):
         without entering it (or calling refresh() explicitly)
         installs the user's keys before the first request.
         """
-        if self._deferred_user:
-            self.refresh()
+        if not self._deferred_user:
+            return
+        # Refuse malformed oids before anything is sent,
+        # the request itself reports them the usual way
+        for oid in oids:
+            try:
+                _Iter(oid)
+            except ValueError:
+                return
+        self.refresh()
 
     def get(self: "SnmpSession", oid: str) -> ValueType:
         """
@@ -193,7 +204,7 @@ class SnmpSession(object):
             NoSuchInstance: When requested key is not found.
             SnmpError: On other SNMP-related errors.
         """
-        self._ensure_discovered()
+        self._ensure_discovered((oid,))
         if self._policer:
             self._policer.wait_sync()
         try:
@@ -225,11 +236,12 @@ class SnmpSession(object):
             RuntimeError: On Python runtime failure.
             SnmpError: On other SNMP-related errors.
         """
-        self._ensure_discovered()
+        oids = list(oids)
+        self._ensure_discovered(oids)
         if self._policer:
             self._policer.wait_sync()
         try:
-            return self._sock.get_many(list(oids))
+            return self._sock.get_many(oids)
         except BlockingIOError as e:
             raise TimeoutError from e
 
@@ -251,7 +263,7 @@ class SnmpSession(object):
                 print(oid, value)
             ```
         """
-        self._ensure_discovered()
+        self._ensure_discovered((oid,))
         return GetNextIter(self._sock, oid, self._policer)
 
     def getbulk(
@@ -274,7 +286,7 @@ class SnmpSession(object):
                 print(oid, value)
             ```
         """
-        self._ensure_discovered()
+        self._ensure_discovered((oid,))
         return GetBulkIter(
             self._sock,
             oid,
